@@ -843,6 +843,15 @@ func (t *Term) norm() *Term {
 	out := newTerm()
 	for _, m := range t.mons {
 		ps, extra := groupLimbEqs(m.preds)
+		// thirty-two byte equalities of the same pair of 256-bit integers (a byte-wise comparison of serialised values)
+		if ps2, extra2 := groupEqs(ps, IByte, 32, 8); extra2 != nil {
+			ps = ps2
+			if extra == nil {
+				extra = extra2
+			} else {
+				extra = extra.Mul(extra2)
+			}
+		}
 		if extra == nil {
 			out.addMon(m.c, m.preds, m.atom)
 			continue
@@ -861,6 +870,11 @@ func (t *Term) norm() *Term {
 // limbEq decomposes an EQZ atom of the form limb_i(I) - limb_i(J) (J may be
 // constant) and returns (I, J-or-nil, constant limb, i).
 func limbEq(p *PAtom) (base *Term, other *Term, k *big.Int, idx int, ok bool) {
+	return unitEq(p, ILimb)
+}
+
+// unitEq is limbEq for limbs (ILimb) or bytes (IByte).
+func unitEq(p *PAtom, kind IKind) (base *Term, other *Term, k *big.Int, idx int, ok bool) {
 	if p.Kind != PEQZ {
 		return
 	}
@@ -873,7 +887,7 @@ func limbEq(p *PAtom) (base *Term, other *Term, k *big.Int, idx int, ok bool) {
 			k = m.c
 			continue
 		}
-		if m.atom.Kind == IWOp && m.atom.Op == "limb" && len(p.A.mons) == 1 && m.c.CmpAbs(bigOne) == 0 {
+		if kind == ILimb && m.atom.Kind == IWOp && m.atom.Op == "limb" && len(p.A.mons) == 1 && m.c.CmpAbs(bigOne) == 0 {
 			// limb i of an integer that may be negative (two's complement, 256 bits): only "all four limbs are
 			// zero" is grouped, and only when |T| < 2^256 (then T = 0 mod 2^256 means T = 0)
 			t := m.atom.Args[0]
@@ -884,7 +898,7 @@ func limbEq(p *PAtom) (base *Term, other *Term, k *big.Int, idx int, ok bool) {
 			}
 			return
 		}
-		if m.atom.Kind != ILimb || m.c.CmpAbs(bigOne) != 0 {
+		if m.atom.Kind != kind || m.c.CmpAbs(bigOne) != 0 {
 			return
 		}
 		limbs = append(limbs, m)
@@ -915,6 +929,12 @@ func limbEq(p *PAtom) (base *Term, other *Term, k *big.Int, idx int, ok bool) {
 // groupLimbEqs finds four limb equalities of the same pair of 256-bit
 // integers among preds and replaces them by EQZ(I-J).
 func groupLimbEqs(preds []*PAtom) (rest []*PAtom, extra *Term) {
+	return groupEqs(preds, ILimb, 4, 64)
+}
+
+// groupEqs finds n unit (limb or byte) equalities of the same pair of integers of n·width bits among preds and
+// replaces them by the equality of the integers.
+func groupEqs(preds []*PAtom, kind IKind, n int, width uint) (rest []*PAtom, extra *Term) {
 	type fam struct {
 		idx   map[int]*PAtom
 		base  *Term
@@ -923,7 +943,7 @@ func groupLimbEqs(preds []*PAtom) (rest []*PAtom, extra *Term) {
 	}
 	fams := map[string]*fam{}
 	for _, p := range preds {
-		b, o, k, i, ok := limbEq(p)
+		b, o, k, i, ok := unitEq(p, kind)
 		if !ok {
 			continue
 		}
@@ -948,7 +968,16 @@ func groupLimbEqs(preds []*PAtom) (rest []*PAtom, extra *Term) {
 	sort.Strings(keys)
 	for _, key := range keys {
 		f := fams[key]
-		if len(f.idx) != 4 {
+		if len(f.idx) != n {
+			continue
+		}
+		complete := true
+		for i := 0; i < n; i++ {
+			if f.idx[i] == nil {
+				complete = false
+			}
+		}
+		if !complete {
 			continue
 		}
 		drop := map[*PAtom]bool{}
@@ -963,14 +992,14 @@ func groupLimbEqs(preds []*PAtom) (rest []*PAtom, extra *Term) {
 		other := f.other
 		if other == nil {
 			kk := new(big.Int)
-			for i := 0; i < 4; i++ {
-				kk.Add(kk, new(big.Int).Lsh(f.ks[i], uint(64*i)))
+			for i := 0; i < n; i++ {
+				kk.Add(kk, new(big.Int).Lsh(f.ks[i], width*uint(i)))
 			}
 			other = TConst(kk)
 		}
 		e := EQZ(f.base.Sub(other))
 		// there may be another complete family among the rest
-		r2, e2 := groupLimbEqs(rest)
+		r2, e2 := groupEqs(rest, kind, n, width)
 		if e2 != nil {
 			return r2, e.Mul(e2)
 		}
